@@ -70,6 +70,7 @@ let dispatch (fn : string) : jv -> jv = match fn with
   | "replay_run" -> replay_run_j
   | "replay_conc" -> replay_conc_j
   | "send_to_kdc" -> send_to_kdc_j
+  | "verify_apreq" -> verify_apreq_j
   | "send_to_kdc_visible" -> send_to_kdc_visible_j
   | _ -> failwith ("unknown model function " ^ fn)
 
